@@ -17,14 +17,25 @@ var ErrInjected = errors.New("injected fault")
 type Deviation struct {
 	// Short: for Read, deliver at most this many bytes (>= 1).
 	Short int `json:"short,omitempty"`
-	// Fail: "sentinel" | "eof" | "unexpected-eof"; the call fails.
+	// Fail: "sentinel" | "eof" | "unexpected-eof" | "temporary"; the call fails.
 	Fail string `json:"fail,omitempty"`
 	// WithData: for Read failures, deliver data (half the request) together with the error.
 	WithData bool `json:"with_data,omitempty"`
 }
 
+// tempErr is an error of the kind network and timeout failures have: it
+// implements Temporary() and Timeout() (net.Error), which callers use to
+// decide whether to retry.
+type tempErr struct{}
+
+func (tempErr) Error() string   { return "injected temporary fault (i/o timeout)" }
+func (tempErr) Temporary() bool { return true }
+func (tempErr) Timeout() bool   { return true }
+
 func failErr(kind string) error {
 	switch kind {
+	case "temporary":
+		return tempErr{}
 	case "eof":
 		return io.EOF
 	case "unexpected-eof":
